@@ -1,4 +1,5 @@
 import MLPE.Proofs.Ledger
+import MLPE.Proofs.KwArgs
 
 /-!
 # Budget: every body call is within the attempts budget; `get_default` only for nodes that opt in
@@ -11,19 +12,24 @@ when a further attempt is due —, a forced default belongs to a node with `use_
 namespace MLPE.Eng
 open MLPE
 
+/-- the keyword arguments of node `n` are what `_get_node_kwargs` builds: the caller's kwargs for the input node, one entry
+per declared parameter otherwise (`Proofs/KwArgs.lean`) -/
+def KwGood (P : Program) (n : Node) (kw : Kwargs) : Prop :=
+  ((n == P.g.input) = true → KwIn P kw) ∧ ((n == P.g.input) = false → KwOK P n kw)
+
 def FOK (P : Program) : Frame → Prop
   | .node _ n force pc =>
       (force = true → (P.cfg n).useDefault = true) ∧
       (match pc with
-       | .body k _ _ => 1 ≤ k ∧ k ≤ (P.cfg n).attemptsEff
-       | .sleep k _ _ => 1 ≤ k ∧ k < (P.cfg n).attemptsEff
-       | .cbRetry _ k _ _ => 1 ≤ k ∧ k < (P.cfg n).attemptsEff
+       | .body k kw _ => (1 ≤ k ∧ k ≤ (P.cfg n).attemptsEff) ∧ KwGood P n kw
+       | .sleep k kw _ => (1 ≤ k ∧ k < (P.cfg n).attemptsEff) ∧ KwGood P n kw
+       | .cbRetry _ k kw _ => (1 ≤ k ∧ k < (P.cfg n).attemptsEff) ∧ KwGood P n kw
        | _ => True)
   | _ => True
 
 def OOK (P : Program) : Obs → Prop
-  | .body n _ k _ => 1 ≤ k ∧ k ≤ (P.cfg n).attemptsEff
-  | .dflt n _ => (P.cfg n).useDefault = true
+  | .body n _ k kw => (1 ≤ k ∧ k ≤ (P.cfg n).attemptsEff) ∧ KwGood P n kw
+  | .dflt n kw => (P.cfg n).useDefault = true ∧ KwGood P n kw
   | _ => True
 
 def FsOK (P : Program) (fs : List Frame) : Prop := ∀ f ∈ fs, FOK P f
@@ -258,10 +264,10 @@ theorem bg_nodeSuccess {s : St} {obs : List Obs} {below : List Frame} (hi : BInv
 
 /-- `get_default` is called only for a node that opts in -/
 theorem bg_nodeDefault {s : St} {obs : List Obs} {below : List Frame} (hi : BInv c.P s) (ho : OsOK c.P obs)
-    (hb : FsOK c.P below) (d : DagRef) (n : Node) (kw : Kwargs) (hd : (c.P.cfg n).useDefault = true) :
-    BGood c.P (nodeDefault c s obs d n below kw) := by
+    (hb : FsOK c.P below) (d : DagRef) (n : Node) (kw : Kwargs) (hd : (c.P.cfg n).useDefault = true)
+    (hkw : KwGood c.P n kw) : BGood c.P (nodeDefault c s obs d n below kw) := by
   unfold nodeDefault
-  have ho2 := ho.snoc (.dflt n kw) hd
+  have ho2 := ho.snoc (.dflt n kw) ⟨hd, hkw⟩
   split
   · exact bg_nodeSuccess hi ho2 hb d n _
   · split
@@ -270,11 +276,11 @@ theorem bg_nodeDefault {s : St} {obs : List Obs} {below : List Frame} (hi : BInv
 
 theorem bg_nodeSleep {s : St} {obs : List Obs} {below : List Frame} (hi : BInv c.P s) (ho : OsOK c.P obs)
     (hb : FsOK c.P below) (d : DagRef) (n : Node) (force : Bool) (k : Nat) (kw : Kwargs) (inv : Nat)
-    (hf : force = true → (c.P.cfg n).useDefault = true) (hk : 1 ≤ k ∧ k < (c.P.cfg n).attemptsEff) :
-    BGood c.P (nodeSleep c s obs d n force below k kw inv) := by
+    (hf : force = true → (c.P.cfg n).useDefault = true) (hk : 1 ≤ k ∧ k < (c.P.cfg n).attemptsEff)
+    (hkw : KwGood c.P n kw) : BGood c.P (nodeSleep c s obs d n force below k kw inv) := by
   unfold nodeSleep
   simp only []
-  have hfr : FOK c.P (.node d n force (.sleep k kw inv)) := ⟨hf, hk⟩
+  have hfr : FOK c.P (.node d n force (.sleep k kw inv)) := ⟨hf, hk, hkw⟩
   split
   · exact bg_block hi (ho.snoc _ (by exact trivial)) (FsOK.cons hfr hb) _
   · exact bg_yieldNow hi ho (FsOK.cons hfr hb)
@@ -282,8 +288,8 @@ theorem bg_nodeSleep {s : St} {obs : List Obs} {below : List Frame} (hi : BInv c
 /-- the decision after attempt `k ≤ attempts`: a further attempt is due only while `k < attempts` -/
 theorem bg_nodeAfterBody {s : St} {obs : List Obs} {below : List Frame} (hi : BInv c.P s) (ho : OsOK c.P obs)
     (hb : FsOK c.P below) (d : DagRef) (n : Node) (force : Bool) (k : Nat) (kw : Kwargs) (inv : Nat) (o : BodyOutcome)
-    (hf : force = true → (c.P.cfg n).useDefault = true) (hk : 1 ≤ k ∧ k ≤ (c.P.cfg n).attemptsEff) :
-    BGood c.P (nodeAfterBody c s obs d n force below k kw inv o) := by
+    (hf : force = true → (c.P.cfg n).useDefault = true) (hk : 1 ≤ k ∧ k ≤ (c.P.cfg n).attemptsEff)
+    (hkw : KwGood c.P n kw) : BGood c.P (nodeAfterBody c s obs d n force below k kw inv o) := by
   unfold nodeAfterBody
   simp only []
   split
@@ -292,7 +298,7 @@ theorem bg_nodeAfterBody {s : St} {obs : List Obs} {below : List Frame} (hi : BI
     split
     · split
       · split
-        · next hd => exact bg_nodeDefault hi ho hb d n kw hd
+        · next hd => exact bg_nodeDefault hi ho hb d n kw hd hkw
         · exact bg_nodeFail hi ho hb d n e
       · next hne =>
         have hlt : 1 ≤ k ∧ k < (c.P.cfg n).attemptsEff := by
@@ -300,27 +306,28 @@ theorem bg_nodeAfterBody {s : St} {obs : List Obs} {below : List Frame} (hi : BI
           omega
         have ho2 := ho.snoc (.ncomplete n (some e)) trivial
         apply bg_cbCall _ _ _ _ _ hi ho2
-        · intro j; exact FsOK.cons (show FOK c.P (.node d n force (.cbRetry j k kw inv)) from ⟨hf, hlt⟩) hb
-        · exact bg_nodeSleep hi ho2 hb d n force k kw inv hf hlt
+        · intro j; exact FsOK.cons (show FOK c.P (.node d n force (.cbRetry j k kw inv)) from ⟨hf, hlt, hkw⟩) hb
+        · exact bg_nodeSleep hi ho2 hb d n force k kw inv hf hlt hkw
         · intro e'; exact bg_nodeCbRaiseInTry hi ho2 d n below e'
     · split
       · split
-        · next hd => exact bg_nodeDefault hi ho hb d n kw hd
+        · next hd => exact bg_nodeDefault hi ho hb d n kw hd hkw
         · exact bg_nodeFail hi ho hb d n e
       · exact bg_raiseOut (hi.same (sameL_nodeFinally _ _ _ _ _)) ho _ _
 
 theorem bg_nodeAttempt {s : St} {obs : List Obs} {below : List Frame} (hi : BInv c.P s) (ho : OsOK c.P obs)
     (hb : FsOK c.P below) (d : DagRef) (n : Node) (force : Bool) (k : Nat) (kw : Kwargs) (inv : Nat)
-    (hf : force = true → (c.P.cfg n).useDefault = true) (hk : 1 ≤ k ∧ k ≤ (c.P.cfg n).attemptsEff) :
-    BGood c.P (nodeAttempt c s obs d n force below k kw inv) := by
+    (hf : force = true → (c.P.cfg n).useDefault = true) (hk : 1 ≤ k ∧ k ≤ (c.P.cfg n).attemptsEff)
+    (hkw : KwGood c.P n kw) : BGood c.P (nodeAttempt c s obs d n force below k kw inv) := by
   unfold nodeAttempt
   split
-  · next hforce => exact bg_nodeDefault hi ho hb d n kw (hf hforce)
+  · next hforce => exact bg_nodeDefault hi ho hb d n kw (hf hforce) hkw
   · simp only []
-    have ho2 := ho.snoc (.body n inv k kw) hk
+    have ho2 := ho.snoc (.body n inv k kw) ⟨hk, hkw⟩
     split
-    · exact bg_nodeAfterBody hi ho2 hb d n force k kw inv _ hf hk
-    · exact bg_block hi (ho2.snoc _ (by exact trivial)) (FsOK.cons (show FOK c.P (.node d n force (.body k kw inv)) from ⟨hf, hk⟩) hb) _
+    · exact bg_nodeAfterBody hi ho2 hb d n force k kw inv _ hf hk hkw
+    · exact bg_block hi (ho2.snoc _ (by exact trivial))
+        (FsOK.cons (show FOK c.P (.node d n force (.body k kw inv)) from ⟨hf, hk, hkw⟩) hb) _
 
 theorem attemptsEff_pos' (cfg : NodeCfg) : 1 ≤ cfg.attemptsEff := by
   unfold NodeCfg.attemptsEff
@@ -334,7 +341,8 @@ theorem bg_nodeBegin {s : St} {obs : List Obs} {below : List Frame} (hi : BInv c
   unfold nodeBegin
   split
   · exact bg_nodeFail hi ho hb d n _
-  · exact bg_nodeAttempt hi ho hb d n force 1 _ inv hf ⟨Nat.le_refl 1, attemptsEff_pos' _⟩
+  · next kw hkw =>
+    exact bg_nodeAttempt hi ho hb d n force 1 _ inv hf ⟨Nat.le_refl 1, attemptsEff_pos' _⟩ (nodeKwargs_ok c.P s n kw hkw)
 
 theorem bg_nodeStart {s : St} {obs : List Obs} {below : List Frame} (hi : BInv c.P s) (ho : OsOK c.P obs)
     (hb : FsOK c.P below) (d : DagRef) (n : Node) (force : Bool)
@@ -541,13 +549,13 @@ theorem bg_stepTask {c : Ctx} {s : St} {out : Out} (hi : BInv c.P s) (hs : stepT
         · exact bg_dagWaitDest hi ho hfs.tail _
         · exact bg_nodeStart hi ho hfs.tail _ _ _ hfs.head.1
         · exact bg_nodePost hi ho hfs.tail _ _ _ false
-        · exact bg_nodeAfterBody hi ho hfs.tail _ _ _ _ _ _ _ hfs.head.1 hfs.head.2
-        · have h2 := hfs.head.2
-          exact bg_nodeAttempt hi ho hfs.tail _ _ _ _ _ _ hfs.head.1 ⟨by omega, by omega⟩
+        · exact bg_nodeAfterBody hi ho hfs.tail _ _ _ _ _ _ _ hfs.head.1 hfs.head.2.1 hfs.head.2.2
+        · have h2 := hfs.head.2.1
+          exact bg_nodeAttempt hi ho hfs.tail _ _ _ _ _ _ hfs.head.1 ⟨by omega, by omega⟩ hfs.head.2.2
         · exact bg_cbThen _ _ _ hi ho (fun j => FsOK.cons ⟨hfs.head.1, trivial⟩ hfs.tail)
             (bg_nodeBegin hi ho hfs.tail _ _ _ _ hfs.head.1)
         · exact bg_cbThen _ _ _ hi ho (fun j => FsOK.cons ⟨hfs.head.1, hfs.head.2⟩ hfs.tail)
-            (bg_nodeSleep hi ho hfs.tail _ _ _ _ _ _ hfs.head.1 hfs.head.2)
+            (bg_nodeSleep hi ho hfs.tail _ _ _ _ _ _ hfs.head.1 hfs.head.2.1 hfs.head.2.2)
         · exact bg_cbThen _ _ _ hi ho (fun j => FsOK.cons (by simp [FOK]) hfs.tail) (bg_nodePost hi ho hfs.tail _ _ _ true)
         · exact bg_cbThen _ _ _ hi ho (fun j => FsOK.cons (by simp [FOK]) hfs.tail) (bg_nodeFailCont hi ho hfs.tail _ _ _)
         · exact bg_cbThen _ _ _ hi ho (fun j => FsOK.cons (by simp [FOK]) hfs.tail) (bg_nodeFinish hi ho hfs.tail _ _)
